@@ -62,6 +62,50 @@ void ob_c13_assign_r1(float* __restrict out, const std::array<size_t,1>& shape_,
         OBLIGE("C13.assign.r1.others_unchanged", same_bits_(out[OTHER], before), IDX, OTHER);
     }
 }
+// the same for a maybe-typed result / output that HOLD a value (broadcasting ufuncs over run-time shapes produce such results): the thread
+// with global id IDX = block*block_size + thread stores result[IDX] at out[IDX] - the ids reach the plain overload in their own roles
+template <size_t N, size_t IDX, size_t OTHER>
+void ob_c13_assign_r1_maybe(float* __restrict out, const std::array<size_t,1>& shape_, const nmtools_maybe<na::ndarray_t<std::array<float,N>,std::array<size_t,1>>>& mresult,
+                  const ks& t_, const ks& b_, const ks& s_)
+{
+    const auto shape = shape_; const ks t = t_, b = b_, s = s_;
+    auto output = na::device_array(out, shape, 1);
+    size_t size = shape[0];
+    size_t idx = b.id[0]*s.id[0] + t.id[0];
+    if (mresult) {
+        const auto& result = *mresult;
+        ASSUME(result.shape_[0] == size);
+        if (idx == IDX && IDX < size) {
+            float before = out[OTHER];
+            float want = result.data_[ IDX * result.offset_.strides_[0] ];
+            na::assign_result(output, mresult, t, b, s);
+            OBLIGE("C13.assign.r1.maybe_result.stores_result_at_idx", same_bits_(out[IDX], want), IDX);
+            OBLIGE("C13.assign.r1.maybe_result.others_unchanged", same_bits_(out[OTHER], before), IDX, OTHER);
+        }
+    }
+}
+template <size_t N, size_t IDX, size_t OTHER>
+void ob_c13_assign_r1_maybe_output(float* __restrict out, const std::array<size_t,1>& shape_, const na::ndarray_t<std::array<float,N>,std::array<size_t,1>>& result,
+                  const ks& t_, const ks& b_, const ks& s_)
+{
+    const auto shape = shape_; const ks t = t_, b = b_, s = s_;
+    auto output = na::device_array(out, shape, 1);
+    using output_t = decltype(output);
+    nmtools_maybe<output_t> moutput{output};
+    size_t size = shape[0];
+    size_t idx = b.id[0]*s.id[0] + t.id[0];
+    ASSUME(result.shape_[0] == size);
+    if (idx == IDX && IDX < size) {
+        float before = out[OTHER];
+        float want = result.data_[ IDX * result.offset_.strides_[0] ];
+        na::assign_result(moutput, result, t, b, s);
+        OBLIGE("C13.assign.r1.maybe_output.stores_result_at_idx", same_bits_(out[IDX], want), IDX);
+        OBLIGE("C13.assign.r1.maybe_output.others_unchanged", same_bits_(out[OTHER], before), IDX, OTHER);
+    }
+}
+#define A1M(I,O) template void ob_c13_assign_r1_maybe<8,I,O>(float* __restrict, const std::array<size_t,1>&, const nmtools_maybe<na::ndarray_t<std::array<float,8>,std::array<size_t,1>>>&, const ks&, const ks&, const ks&); \
+   template void ob_c13_assign_r1_maybe_output<8,I,O>(float* __restrict, const std::array<size_t,1>&, const na::ndarray_t<std::array<float,8>,std::array<size_t,1>>&, const ks&, const ks&, const ks&);
+A1M(1,0) A1M(2,0) A1M(5,6) A1M(7,3)
 void ob_c13_negctl(float* out, const std::array<size_t,1>& shape_, const na::ndarray_t<std::array<float,8>,std::array<size_t,1>>& result, const ks& t_, const ks& b_, const ks& s_, size_t k)
 {
     const auto shape = shape_; const ks t = t_, b = b_, s = s_;
